@@ -69,7 +69,7 @@ _RE_DEPTH = re.compile(r"depth of the complete state graph search is (\d+)")
 _RE_COV = re.compile(r"^<(\w+) line (\d+), col \d+ to line \d+, col \d+ of module (\w+)>: (\d+):(\d+)", re.M)
 
 
-def tlc(spec, cfg, scratch, workers=None, env=None, timeout=900, heap="6g",
+def tlc(spec, cfg, scratch, workers=None, env=None, timeout=600, heap="6g",
         simulate=None, depth=None, coverage=False, seed=None, deadlock=True,
         dfs_queue=False, capture_prefix=None, stdout_path=None, tag=None):
     """Run TLC on <spec>.tla with <cfg>; returns TlcResult.
@@ -83,6 +83,7 @@ def tlc(spec, cfg, scratch, workers=None, env=None, timeout=900, heap="6g",
     jopts = ["-XX:+UseParallelGC", "-Xss64m", "-Xmx" + heap]
     if dfs_queue:
         jopts.append("-Dtlc2.tool.queue.IStateQueue=StateDeque")
+    jopts.append("-DTLA-Library=" + os.path.join(SPECS, "lib"))
     cmd = ["java"] + jopts + ["-cp", JAR, "tlc2.TLC", "-workers", str(workers),
            "-metadir", md, "-config", cfg, "-noGenerateSpecTE"]
     if not deadlock:
@@ -173,7 +174,7 @@ def tlc_must_pass(res, what):
 
 
 def sany(path):
-    p = subprocess.run(["java", "-cp", JAR, "tla2sany.SANY", path], stdout=subprocess.PIPE,
+    p = subprocess.run(["java", "-DTLA-Library=" + os.path.join(SPECS, "lib"), "-cp", JAR, "tla2sany.SANY", path], stdout=subprocess.PIPE,
                        stderr=subprocess.STDOUT, text=True, cwd=os.path.dirname(path), timeout=120)
     bad = p.returncode != 0 or "*** Errors" in p.stdout or "Fatal errors" in p.stdout or "Could not find module" in p.stdout
     return (not bad), p.stdout
